@@ -748,6 +748,17 @@ func (env *SpecEnv) evalBinary(n *SNode, t *ast.BinaryExpr) Val {
 
 // errIdx: index of the last result of error type.
 func (env *SpecEnv) findEvents(site string) []Event {
+	// "site#k": the k-th (0-based) call at that site
+	if i := strings.LastIndex(site, "#"); i > 0 {
+		var k int
+		if _, err := fmt.Sscanf(site[i+1:], "%d", &k); err == nil {
+			all := env.findEvents(site[:i])
+			if k < len(all) {
+				return []Event{all[k]}
+			}
+			return nil
+		}
+	}
 	var out []Event
 	for _, ev := range env.events {
 		if ev.Site == site || ev.Callee == site || ev.Full == site || strings.HasSuffix(ev.Site, "."+site) && strings.Contains(site, ".") {
@@ -817,6 +828,9 @@ func (env *SpecEnv) evalCall(n *SNode, c *ast.CallExpr) Val {
 					o = env
 				}
 				return TV(And(Not(Eq(v.T, TNull)), Not(o.st.isAlloc(v.T)), env.st.isAlloc(v.T)))
+			case "hasPrefix":
+				a, b := env.evalGo(n, c.Args[0]), env.evalGo(n, c.Args[1])
+				return TV(env.x.hasPrefix(a.T, b.T))
 			case "substr":
 				sv := env.evalGo(n, c.Args[0])
 				a, b := env.evalGo(n, c.Args[1]), env.evalGo(n, c.Args[2])
